@@ -260,3 +260,121 @@ Proof.
   exists [([(1%positive, 1)], 1%Z)], [([(1%positive, 4)], 1%Z)], [(1%positive, 1)], [(1%positive, 4)], [(1%positive, 1)], 1%positive.
   repeat split. vm_compute. discriminate.
 Qed.
+
+(* ================= sum with a constant unscored_value: a profile-dependent image =================
+   unscored_value = v: every ballot also gives v to each candidate OF THE PROFILE it does not score.  Like the positional or the inverted
+   approval image this reads the candidate set off the profile: the sum is additive over profiles that score the same candidates. *)
+Definition ptotal (votes : sprofile) : Q := fold_right (fun bn acc => inject_Z (snd bn) + acc) 0 votes.
+
+Lemma ptotal_app a b : ptotal (a ++ b) == ptotal a + ptotal b.
+Proof. unfold ptotal. induction a as [|bn a IH]; cbn [app fold_right]; [ring|]. rewrite IH. ring. Qed.
+
+Lemma n_votes_ptotal votes : inject_Z (fold_left Z.add (map snd votes) 0%Z) == ptotal votes.
+Proof.
+  unfold ptotal. induction votes as [|bn votes IH]; cbn [map fold_left fold_right]; [reflexivity|].
+  rewrite fold_add_shift, inject_Z_plus, IH. change (0 + snd bn)%Z with (snd bn). reflexivity.
+Qed.
+
+Lemma total_wq d : inject_Z (cs_total d) == wq (fun _ => 1) d.
+Proof.
+  induction d as [|sn d IH]; [reflexivity|]. rewrite cs_total_cons, inject_Z_plus, IH, wq_cons. ring.
+Qed.
+
+Definition const_cfg (cf : score_cfg) (v : Q) : Prop :=
+  sc_fn cf = FSum /\ sc_unscored cf = UConst v /\ (sc_min_count cf <= 0)%Z /\ Qle_bool (sc_trunc cf) 0 = true.
+
+Definition fill (v : Q) (nv : Z) (d : cscores) : cscores := cs_set d v (nv - cs_total d + odf (cs_get d v)).
+
+Lemma correct_const cf d nv v : const_cfg cf v -> cs_nonneg d -> correct_scores cf d nv = inl (fill v nv d).
+Proof.
+  intros (_ & Hu & Hm & Ht) Hd. unfold correct_scores. rewrite Hu.
+  pose proof (cs_total_nonneg d Hd) as Hn.
+  assert ((cs_total d <? sc_min_count cf)%Z = false) as -> by (apply Z.ltb_ge; lia).
+  rewrite Ht. reflexivity.
+Qed.
+
+Lemma sequence_all_inl_map {X Y Z'} (l : list (X * Y)) (f : X * Y -> Z' + serr) (g : Y -> Z') :
+  (forall xy, In xy l -> f xy = inl (g (snd xy))) ->
+  sequence (map (fun xy => (fst xy, f xy)) l) = inl (map (fun xy => (fst xy, g (snd xy))) l).
+Proof.
+  induction l as [|[x y] l IH]; intros H; cbn [map sequence fst snd]; [reflexivity|].
+  rewrite (H (x, y) (or_introl eq_refl)). cbn [snd]. rewrite IH; [reflexivity|]. intros xy Hin. apply H. right. exact Hin.
+Qed.
+
+Definition const_out (v : Q) (votes : sprofile) : list (C * Q) :=
+  map (fun cd : C * cscores => (fst cd, Qred (fold_left Qplus (expand (fill v (fold_left Z.add (map snd votes) 0%Z) (snd cd))) 0)))
+      (raw_scores votes).
+
+Theorem score_const_runs cf v votes : const_cfg cf v -> profile_ok votes -> score_to_simple cf votes = inl (const_out v votes).
+Proof.
+  intros Hc Hv. unfold score_to_simple, corrected_scores. cbv zeta.
+  rewrite (sequence_all_inl_map (raw_scores votes) _ (fill v (fold_left Z.add (map snd votes) 0%Z))).
+  - destruct Hc as (-> & _). rewrite aggregate_sum, map_map. reflexivity.
+  - intros cd Hin. apply (correct_const cf _ _ v Hc).
+    apply (raw_scores_okd votes (fun bn H => proj1 (Hv bn H)) cd Hin).
+Qed.
+
+Theorem const_out_value v votes c : profile_ok votes -> In c (map fst (raw_scores votes)) ->
+  dget_or (const_out v votes) c 0 == psum (fun s => s) c votes + v * (ptotal votes - psum (fun _ => 1) c votes).
+Proof.
+  intros Hv Hc. apply in_map_iff in Hc. destruct Hc as ([c' d] & E & Hin). cbn [fst] in E. subst c'.
+  rewrite <- (wq_raw (fun s => s) c votes) by (intros a b H; exact H).
+  rewrite <- (wq_raw (fun _ => 1) c votes) by (intros a b _; reflexivity).
+  rewrite (raw_look votes c d Hin), <- n_votes_ptotal, <- total_wq.
+  unfold const_out, dget_or.
+  rewrite (dget_map_vals (fun d0 : cscores => Qred (fold_left Qplus (expand (fill v (fold_left Z.add (map snd votes) 0%Z) d0)) 0))).
+  rewrite (In_dget _ _ _ (raw_scores_nodup votes) Hin). cbn [option_map].
+  pose proof (raw_scores_okd votes (fun bn H => proj1 (Hv bn H)) (c, d) Hin) as [Hn _]. cbn [snd] in Hn.
+  pose proof (raw_scores_bound votes Hv (c, d) Hin) as Hb. cbn [snd] in Hb.
+  set (nv := fold_left Z.add (map snd votes) 0%Z) in *.
+  assert (Hb' : (cs_total d <= nv)%Z) by exact Hb.
+  assert (Hg : (0 <= odf (cs_get d v))%Z).
+  { destruct (cs_get d v) as [k|] eqn:E; cbn [odf]; [exact (cs_get_nonneg d v k Hn E)|lia]. }
+  rewrite Qred_correct, sum_expand.
+  - unfold fill. replace (nv - cs_total d + odf (cs_get d v))%Z with (odf (cs_get d v) + (nv - cs_total d))%Z by lia.
+    rewrite (wq_set (fun s => s) d v (nv - cs_total d)) by (intros a b H; exact H).
+    unfold Zminus. rewrite inject_Z_plus, inject_Z_opp. ring.
+  - unfold fill. apply cs_set_nonneg_gen; [exact Hn|lia].
+Qed.
+
+Lemma const_out_keys v votes : map fst (const_out v votes) = map fst (raw_scores votes).
+Proof. unfold const_out. rewrite map_map. reflexivity. Qed.
+
+Lemma profile_ok_app a b : profile_ok a -> profile_ok b -> profile_ok (a ++ b).
+Proof. intros Ha Hb bn Hin. apply in_app_or in Hin. destruct Hin as [H|H]; [apply Ha, H|apply Hb, H]. Qed.
+
+Lemma raw_keys_app a b c : In c (map fst (raw_scores a)) -> In c (map fst (raw_scores (a ++ b))).
+Proof.
+  rewrite !raw_scores_keys. intros (x & n & s & H1 & H2). exists x, n, s. split; [apply in_or_app; left; exact H1|exact H2].
+Qed.
+
+(* additive on a candidate both profiles score (in particular: on two profiles that score the same candidates) *)
+Theorem score_const_additive cf v a b oa ob oab c : const_cfg cf v -> profile_ok a -> profile_ok b ->
+  In c (map fst (raw_scores a)) -> In c (map fst (raw_scores b)) ->
+  score_to_simple cf a = inl oa -> score_to_simple cf b = inl ob -> score_to_simple cf (a ++ b) = inl oab ->
+  dget_or oab c 0 == dget_or oa c 0 + dget_or ob c 0.
+Proof.
+  intros Hc Ha Hb Ca Cb Ra Rb Rab.
+  rewrite (score_const_runs cf v a Hc Ha) in Ra. rewrite (score_const_runs cf v b Hc Hb) in Rb.
+  rewrite (score_const_runs cf v (a ++ b) Hc (profile_ok_app a b Ha Hb)) in Rab.
+  injection Ra as <-. injection Rb as <-. injection Rab as <-.
+  rewrite (const_out_value v a c Ha Ca), (const_out_value v b c Hb Cb),
+          (const_out_value v (a ++ b) c (profile_ok_app a b Ha Hb) (raw_keys_app a b c Ca)).
+  rewrite !psum_app, ptotal_app. ring.
+Qed.
+
+(* the candidate-set condition is needed: a candidate only one of the two profiles scores *)
+Lemma score_const_needs_same_cands :
+  exists cf a b oa ob oab c,
+    const_cfg cf 1 /\ profile_ok a /\ profile_ok b /\
+    score_to_simple cf a = inl oa /\ score_to_simple cf b = inl ob /\ score_to_simple cf (a ++ b) = inl oab /\
+    ~ dget_or oab c 0 == dget_or oa c 0 + dget_or ob c 0.
+Proof.
+  exists {| sc_fn := FSum; sc_unscored := UConst 1; sc_min_count := 0; sc_trunc := 0; sc_bottom := 0 |},
+         [([(1%positive, 3)], 1%Z)], [([(2%positive, 3)], 1%Z)], [(1%positive, 3)], [(2%positive, 3)], [(1%positive, 4); (2%positive, 4)], 1%positive.
+  split; [|split; [|split]].
+  - split; [reflexivity|split; [reflexivity|split; [apply Z.le_refl|reflexivity]]].
+  - intros bn [<-|[]]. split; [cbn; lia|repeat constructor; intros []].
+  - intros bn [<-|[]]. split; [cbn; lia|repeat constructor; intros []].
+  - repeat split. vm_compute. discriminate.
+Qed.
